@@ -35,6 +35,63 @@ pub enum Mode {
     Unchecked,
 }
 
+/// The same question with keys WITHOUT drop glue whose `==` is not bit equality (one-byte `Tiny`, four-byte
+/// `Word`, three-byte `Odd3`, thin references compared through the pointee): the requested keys are equal to
+/// the stored ones but differ from them in their bits (another tag / another address).  Pairs and triples of
+/// pairwise different classes; every position must be what `get_mut` gives (presence, address, value).
+fn plain_case<K: Eq + 'static, const N: usize>(prop: &str, tname: &str, layout: &[u32], universe: &[u32], mk: &dyn Fn(u32, u32) -> K, unchecked: bool) -> u64 {
+    let mut m: Map<K, u32, N> = Map::new();
+    for c in layout {
+        m.insert(mk(*c, 1), 1000 + *c);
+    }
+    let mut n = 0u64;
+    let want_of = |m: &mut Map<K, u32, N>, c: u32| m.get_mut::<K>(&mk(c, 2)).map(|x| (x as *mut u32 as usize, *x));
+    for a in universe {
+        for b in universe {
+            if a == b {
+                continue;
+            }
+            let want = [want_of(&mut m, *a), want_of(&mut m, *b)];
+            let (ka, kb) = (mk(*a, 2), mk(*b, 2));
+            let got: [Option<(usize, u32)>; 2] = {
+                let r = if unchecked { unsafe { m.get_disjoint_unchecked_mut::<K, 2>([&ka, &kb]) } } else { m.get_disjoint_mut::<K, 2>([&ka, &kb]) };
+                [r[0].as_ref().map(|x| (*x as *const u32 as usize, **x)), r[1].as_ref().map(|x| (*x as *const u32 as usize, **x))]
+            };
+            n += 1;
+            if got != want {
+                v(prop, "position-vs-get_mut(plain keys)", format!("Map<{},u32,{}> state={:?}: keys of classes [{}, {}] (equal to the stored keys, other bits) give (address, value) {:x?}; get_mut gives {:x?}", tname, N, layout, a, b, got, want));
+            }
+            for c in universe {
+                if c == a || c == b {
+                    continue;
+                }
+                let want3 = [want[0], want[1], want_of(&mut m, *c)];
+                let kc = mk(*c, 2);
+                let got3: [Option<(usize, u32)>; 3] = {
+                    let r = if unchecked { unsafe { m.get_disjoint_unchecked_mut::<K, 3>([&ka, &kb, &kc]) } } else { m.get_disjoint_mut::<K, 3>([&ka, &kb, &kc]) };
+                    [r[0].as_ref().map(|x| (*x as *const u32 as usize, **x)), r[1].as_ref().map(|x| (*x as *const u32 as usize, **x)), r[2].as_ref().map(|x| (*x as *const u32 as usize, **x))]
+                };
+                n += 1;
+                if got3 != want3 {
+                    v(prop, "position-vs-get_mut(plain keys)", format!("Map<{},u32,{}> state={:?}: keys of classes [{}, {}, {}] give {:x?}; get_mut gives {:x?}", tname, N, layout, a, b, c, got3, want3));
+                }
+            }
+        }
+    }
+    n
+}
+static PLAIN_CELLS: [[u32; 16]; 3] = {
+    let mut c = [[0u32; 16]; 3];
+    let mut i = 0;
+    while i < 16 {
+        c[0][i] = i as u32;
+        c[1][i] = i as u32;
+        c[2][i] = i as u32;
+        i += 1;
+    }
+    c
+};
+
 impl<'a> Dj<'a> {
     fn one<const N: usize, const J: usize>(&mut self, fr: &mut Frame<Map<TK, TV, N>>, layout: &[u32], tuple: [u32; J], mode: Mode) {
         let name: &'static str = match mode {
@@ -221,6 +278,19 @@ impl<'a> Dj<'a> {
             drop(fr);
             if ledger::alive_count() != 0 {
                 v("C02", "leak", format!("{} objects alive after the map was dropped (layout {:?})", ledger::alive_count(), layout));
+            }
+            if self.case_no % 3 == 0 {
+                use support::elems::{Odd3, Tiny, Word};
+                let unchecked = modes.contains(&Mode::Unchecked);
+                let prop = if unchecked { "C18" } else { "C13" };
+                ledger::set_ctx(self.case_no, 0, if unchecked { "get_disjoint_unchecked_mut(plain keys)" } else { "get_disjoint_mut(plain keys)" });
+                let mut n = 0;
+                n += plain_case::<Tiny, N>(prop, "Tiny(1 byte)", &layout, &keys, &|c, t| Tiny::new(c, t), unchecked);
+                n += plain_case::<Word, N>(prop, "Word(4 bytes)", &layout, &keys, &|c, t| Word::new(c, t), unchecked);
+                n += plain_case::<Odd3, N>(prop, "Odd3(3 bytes)", &layout, &keys, &|c, t| Odd3::new(c, t), unchecked);
+                n += plain_case::<&'static u32, N>(prop, "&u32", &layout, &keys, &|c, t| &PLAIN_CELLS[t as usize % 3][c as usize], unchecked);
+                self.cx.rep.evaluations += n;
+                self.cx.rep.hit("plain-keys");
             }
             if ledger::viol_total() > 0 {
                 let d = format!("layout case {}: Map<_,_,{}> state={:?}, all key tuples of length 0..={} over {:?}", self.case_no, N, layout, maxj, keys);
